@@ -9,6 +9,7 @@ import random
 from vf import diff
 from vf import kfclass
 from vf import stream
+from vf.gen import closures
 from vf.gen import grammar
 from vf.gen import skeleton
 
@@ -41,6 +42,7 @@ def plan(tier, seed):
   for k in range(16):
     specs.append({'kind': 'skeleton', 'seed': seed, 'slice': k, 'parts': 16,
                   'tier': tier, 'hashseed': (seed * 16 + k + 7) % 4294967295})
+  specs.append({'kind': 'closures', 'seed': seed, 'hashseed': seed % 4294967295, 'tier': tier})
   return specs
 
 
@@ -107,6 +109,14 @@ def run_slice(spec):
       if i == 3 and out['verdict'] == 'ok':
         out['sample'] = {'case': cid, 'mode': mode, 'features': feats, 'inputs': inputs[:2],
                          'program': stream.body_of(src)}
+      yield out
+  elif spec['kind'] == 'closures':
+    for k, (cid, src, inputs) in enumerate(closures.cases()):
+      mode = ['to_graph', 'convert', 'via_call'][k % 3]
+      out = judge('C01' + cid, src, inputs, mode, [], reduce=False)
+      out['counters']['closure_programs'] = 1
+      if out['verdict'] == 'ok':
+        out['sig'] = cid
       yield out
   else:
     n = 0
